@@ -83,7 +83,7 @@ type c13Hole struct {
 }
 
 func c13HoleGen(r *fw.Rand, depth int) c13Hole {
-	switch k := r.Intn(16); {
+	switch k := r.Intn(19); {
 	case k == 0:
 		return c13Hole{"1+2", "3", ""}
 	case k == 1:
@@ -114,6 +114,10 @@ func c13HoleGen(r *fw.Rand, depth int) c13Hole {
 		return c13Hole{"{'k': 1}.k", "1", ""}
 	case k == 13:
 		return c13Hole{"\"d\\\"q\"", "d\"q", ""}
+	case k == 14:
+		return c13Hole{"hi = 0; while hi < 5 { hi = hi + 1; if hi == 3 { break } }; hi", "3", "hi=i3"}
+	case k == 15:
+		return c13Hole{"hj = 0; hn = 0; while hj < 6 { hj = hj + 1; if hj % 2 { continue }; hn = hn + 1 }; hn", "3", "hn=i3"}
 	default:
 		if depth > 0 {
 			in := c13Template(r, depth-1, 2)
@@ -155,7 +159,7 @@ func c13Template(r *fw.Rand, depth int, maxHoles int) c13Tmpl {
 			break
 		}
 		h := c13HoleGen(r, depth)
-		stmtOnly := strings.Contains(h.code, "if ") || strings.Contains(h.code, "while ")
+		stmtOnly := strings.HasPrefix(h.code, "if ") || strings.Contains(h.code, "while ")
 		if r.Bool() || stmtOnly {
 			sb.WriteString("{%" + r.Pick([]string{"", " "}) + h.code + r.Pick([]string{"", " "}) + "%}")
 		} else {
